@@ -18,7 +18,7 @@ def one(sid):
             r = subprocess.run(["patch", "-p1", "-i", os.path.join(d, "patch.diff")], cwd=dst, capture_output=True, text=True)
             if r.returncode != 0:
                 return sid, prop, "patch does not apply", []
-        env = dict(os.environ, GOFLAGS="-mod=mod", GOPROXY="off", GOSUMDB="off", GOTOOLCHAIN="local")
+        env = dict(os.environ, GOFLAGS="-mod=mod -trimpath", GOPROXY="off", GOSUMDB="off", GOTOOLCHAIN="local")
         env.pop("GOWORK", None)
         c = subprocess.run([os.path.join(HERE, "bin", "escalint"), "check", "-prop", prop, "-repo", dst, "-verif", HERE, "-n"], capture_output=True, text=True, env=env)
         rules = sorted(set(l.split()[1] for l in c.stdout.splitlines() if l.startswith(("VIOLATED", "UNDECIDED", "VACUOUS", "ANCHOR-LOST"))))
